@@ -299,6 +299,11 @@ CHECKS["C06"] = {
          "gen_stubs": [{"pkgpath": "github.com/ProtonMail/gluon/connector", "iface": "Connector", "type": "verifConnBase"}],
          "params": {"quick": grid(faults=[0, 1]), "thorough": grid(faults=[0, 1, 2])},
          "cover": ["apply-ok", "apply-error", "replay-ok"]},
+        {"name": "sequence", "pkg": "internal/backend", "pkgname": "backend", "entry": "VerifC06Sequence", "files": ["zz_verif_backend.go", "zz_verif_c02.go", "zz_verif_c06b.go"],
+         "with": ["verifdb", "state_export"],
+         "gen_stubs": [{"pkgpath": "github.com/ProtonMail/gluon/connector", "iface": "Connector", "type": "verifConnBase"}],
+         "params": {"quick": grid(k=[1]), "thorough": grid(k=[2])},
+         "cover": ["seq-created", "seq-mailboxes", "seq-flags", "seq-deleted", "seq-id-changed", "seq-redelivered"]},
     ],
     "stubs": ["internal/verifdb relational model with symbolic failures per operation", "store.Store stub with symbolic failures", "runtime.NumCPU -> 1 (sequential branch of parallel.DoContext)", "no session states attached (queueStateUpdate has no receivers)"],
     "outside": ["the update goroutine / channel plumbing (updateInjector, newUser loop)", "the responses sessions would emit for the queued state updates (decided separately by C02 for the same update types)"],
